@@ -514,6 +514,58 @@ func c08OpTable(c *core.Ctx) {
 			})
 		}
 	})
+	// implicitly broadcasting operations with operands of DIFFERENT rank / shape (a scalar argument, a
+	// scalar receiver, a lower-rank argument, mutual expansion): the same table
+	for _, k := range []string{"Add", "Sub", "Mul", "Div", "Dot", "MatMul"} {
+		for pi, pair := range [][2][]int{{{2}, {}}, {{}, {2}}, {{2, 2}, {2}}, {{2}, {2, 2}}, {{2, 1}, {1, 2}}, {{1, 2, 2}, {2, 2}}, {{2, 2}, {1, 2, 2}}} {
+			if k == "MatMul" && (len(pair[0]) < 2 || len(pair[1]) < 2) {
+				continue
+			}
+			if k == "Dot" && (len(pair[0]) == 0 || len(pair[1]) == 0) {
+				continue
+			}
+			op := ref.Op{K: k}
+			if _, ok := ref.ResultShape(op, [][]int{pair[0], pair[1]}); !ok {
+				continue
+			}
+			for code := 0; code < 16; code++ {
+				k, pi, pair, code := k, pi, pair, code
+				c.Case(fmt.Sprintf("optable/mixed/%s/%d/%d", k, pi, code), true, func() core.Verdict {
+					in := []*ref.T{enum.Generic(pair[0], 63, 0.5, 2, false), enum.Generic(pair[1], 64, 0.5, 2, false)}
+					sa, sb := states[code%4], states[code/4]
+					rin := []tensor.Tensor{mkState(in[0], sa), mkState(in[1], sb)}
+					anyTracked := sa == "T" || sa == "S" || sb == "T" || sb == "S"
+					anySpent := sa == "S" || sa == "D" || sb == "S" || sb == "D"
+					y, err := rt.Apply(op, rin)
+					if err != nil {
+						return core.Fail("%s on shapes %v with operand states %s%s: %v", k, pair, sa, sb, err)
+					}
+					tr, dirty, g, _, _ := tensor.VerifGradState(y)
+					wantTr := anyTracked && !anySpent
+					if tr != wantTr || dirty != anySpent || g != nil {
+						return core.Fail("%s on shapes %v with operand states %s%s (T tracked, U untracked, S spent, D derived from spent): result tracked=%v spent=%v, expected tracked=%v spent=%v", k, pair, sa, sb, tr, dirty, wantTr, anySpent)
+					}
+					before := []tensor.Tensor{rin[0].Gradient(), rin[1].Gradient()}
+					if err := tensor.BackPropagate(y); err != nil {
+						return core.Fail("%s on shapes %v with operand states %s%s: BackPropagate: %v", k, pair, sa, sb, err)
+					}
+					for i, st := range []string{sa, sb} {
+						changed := rin[i].Gradient() != before[i]
+						if want := wantTr && st == "T"; changed != want {
+							return core.Fail("%s on shapes %v with operand states %s%s: operand %d gradient assigned=%v, expected %v", k, pair, sa, sb, i, changed, want)
+						}
+						if wantTr && st == "T" {
+							// spent now: a later result of it is untracked and spent
+							if tr2, d2, _, _, _ := tensor.VerifGradState(rin[i].Scale(2)); tr2 || !d2 {
+								return core.Fail("%s on shapes %v: operand %d was back-propagated through but a later result of it is tracked=%v spent=%v", k, pair, i, tr2, d2)
+							}
+						}
+					}
+					return core.Pass()
+				})
+			}
+		}
+	}
 	// n-ary Concat with MANY operands: all untracked except one (at the first,
 	// middle or last position) in each of the states T, S, D
 	for _, k := range operandCounts(c.Thorough()) {
